@@ -6,6 +6,7 @@ from lib.ast import walk
 from lib.flat import show
 from lib.mir import AnchorMissing
 from . import nf_common, nfq
+from .guardlib import gval, comparisons, lt_true, ge_true
 
 MANIFEST = {
     "text": 'Ordering, who-may-call and table rules on XmlSerializer: every namespace registration happens before the xmlns declarations of the element are written and only in start_elem (declare-before-use), everything written between \'="\' and \'"\' goes through the attribute escaper, the escape table covers what the XML tokenizer rewrites or interprets (&, <, quotes, CR) and is reversible, scopes are pushed/popped once per element; plus equality of every serializer function with its reviewed normal form. An unprefixed element in no namespace un-declares an inherited default namespace (R17.6: found violated, fixed as F23); a whole-text shortcut in the escaper must test every escaped character (R17.3).',
@@ -200,7 +201,7 @@ def r17_6(ctx):
     undeclares = False
     for pc in nfq.feasible(pcs):
         g = pc["guards"]
-        unpref = g.get("p1.prefix.is_none()") is True or g.get("p1.prefix.is_some()") is False
+        unpref = gval(g, "p1.prefix matches Some(_)") is False
         nons = g.get("p1.ns.is_empty()") is True
         if unpref and nons and any(a.endswith(".insert") and [str(x) for x in args] == ["p1"] for a, args in pc["actions"]):
             undeclares = True
@@ -214,8 +215,15 @@ def r17_6(ctx):
     if len(dn) == 1:
         key, pcs = nfq.cells(ctx, AREA, dn[0], exact=True)
         pcs = nfq.feasible(pcs)
-        t = any(any("get(None) matches Some(Some(_))" in k and v for k, v in pc["guards"].items()) and "is_empty()" in str(pc["ret"]) and str(pc["ret"]).startswith("!") and
-                any(a[0].startswith("loop-begin") and "rev()" in a[0] for a in pc["actions"]) for pc in pcs)
+        def found(pc):
+            return any("get(None) matches Some(Some(_))" in k and v for k, v in pc["guards"].items()) and any(a[0].startswith("loop-begin") and "rev()" in a[0] for a in pc["actions"])
+
+        def empty(pc):
+            vs = [v for k, v in pc["guards"].items() if k.endswith(".is_empty()")]
+            return vs[0] if len(vs) == 1 else None
+
+        hits = [pc for pc in pcs if found(pc)]
+        t = bool(hits) and all(empty(pc) is not None and str(pc["ret"]) == ("false" if empty(pc) else "true") for pc in hits)
         f = any(str(pc["ret"]) == "false" and any(a[0].startswith("loop-end") for a in pc["actions"]) for pc in pcs)
         ok = t and f
     ctx.ob("R17.6", "inherited-default-is-innermost-binding", ok, "scopes are searched innermost first; the first binding of the empty prefix decides; none = no default namespace")
